@@ -10,21 +10,32 @@
 // The specification is written in integer nanoseconds (u128), independently of SystemTime.
 #![allow(dead_code)]
 
-use sciparse::{dataplane_path::view::ScionDpPathView, identifier::isd_asn::IsdAsn, path::metadata::PathMetadata};
+use sciparse::{
+    dataplane_path::view::{ScionDpPathView, ScionDpPathViewRef},
+    identifier::isd_asn::IsdAsn,
+    path::{fingerprint::data_plane::DpPathFingerprint, metadata::PathMetadata},
+};
 
 use super::*;
 
 const NS: u128 = 1_000_000_000;
 
+/// The path fingerprint is a SHA-256; the `sha2` crate selects its implementation through a `cpuid`
+/// inline-asm probe, which Kani cannot execute. The fingerprint plays no role in expiry
+/// classification, so its constructor is stubbed to a constant.
+fn stub_fingerprint(_dp: ScionDpPathViewRef<'_>, _src: IsdAsn, _dst: IsdAsn) -> DpPathFingerprint {
+    DpPathFingerprint::from([0u8; 32])
+}
+
 /// A path whose expiry is `exp` (taken from the metadata: the empty dataplane path has none).
-/// The fingerprint (SHA-256 over concrete bytes) is computed concretely by CBMC.
 fn path_with_expiry(exp: u32) -> ScionPath {
     let md = PathMetadata { expiration: exp as u64, mtu: 1400, interfaces: None, epic_auth: None, notes: None };
     ScionPath::new(IsdAsn(0x0001_ff00_0000_0110), IsdAsn(0x0001_ff00_0000_0111), ScionDpPathView::Empty, Some(md), None)
 }
 
 #[kani::proof]
-#[kani::unwind(70)]
+#[kani::unwind(34)]
+#[kani::stub(sciparse::path::fingerprint::data_plane::DpPathFingerprint::from_dp_path, stub_fingerprint)]
 fn c06_expiry_classification() {
     let exp: u32 = kani::any();
     let path = path_with_expiry(exp);
